@@ -6,6 +6,7 @@ import Proofs.PCQueueEintr
 import Proofs.ChainStream
 import Proofs.ChainPoolSys
 import Proofs.ChainSys
+import Proofs.PCQueueProgress
 /-!
 # C17 — Queues and chains deliver each item exactly once, in order, and terminate
 
@@ -574,6 +575,34 @@ theorem chain_ring_steplevel {b m : Nat} {data : List Nat} (hb : 0 < b) (hm : 1 
     (chain_areach (b := b) (m := m) (data := data) (tr := (Chain.init b m data).tr) ha).2
   obtain ⟨h1, h2, h3, h4, _, _, h7⟩ := chain_ring hb hm hx
   exact ⟨hx, h1, h2, h3, h4, h7⟩
+
+/-- **Liveness transport (partial).**  Intended statements (`pool_steplevel_no_deadlock`,
+`pool_steplevel_terminates`, then the chain): every reachable non-final state of the step-level pool / chain has an
+enabled micro-step, and every maximal run in which each `sem_wait` is interrupted only finitely often (the
+fairness assumption on EINTR) terminates in the abstract final state.  Proved here are the two per-queue facts they
+rest on, and their lift to the composed system:
+(1) *progress at an enabled abstract operation*: if a thread is inside `Produce(q)` / `Consume(q)` before its
+    linearisation point and the abstract FIFO operation is enabled in `abs c` (buffer not full resp. not empty), then
+    some thread of the composed system can take a micro-step in queue `q` (`queue_progress` per queue:
+    the open-system version of `no_deadlock`);
+(2) *bounded operations*: every micro-step uses exactly one unit of the queue's `measure` (five per operation),
+    and an interrupt does not change the state, so an interrupt-fair run spends finitely many transitions per
+    operation.
+**Missing**: combining (1)/(2) with the abstract `pool_exactly_once` clause 4 / `chain_ring` clause 5 and the
+idle / `await` cases into the two named theorems (an abstractly enabled `await` on a thread that is inside an
+operation needs the extra argument that this thread can itself progress), and the well-founded measure for
+interrupt-fair termination of the product. -/
+theorem steplevel_liveness_partial {σ : Type} {P : Prog σ} {c : CState σ} (h : CInv P c) :
+    (∀ t q, t < P.nthreads → (c.mode t).queue = some q → linearized (c.qs q) t = false →
+        ((∀ v k, c.mode t = .inP q v k → ((Sys.abs c).q q).length < P.cap q)
+          ∧ (∀ k, c.mode t = .inC q k → (Sys.abs c).q q ≠ [])) →
+        ∃ t', cstep P c t' ≠ none)
+    ∧ (∀ q t s', step (c.qs q) t = some s' → PCQueue.measure s' + 1 = PCQueue.measure (c.qs q))
+    ∧ (∀ t c', cintr c t = some c' → c' = c) := by
+  refine ⟨fun t q ht hq hpre hen => steplevel_op_progress h ht hq hpre hen, fun q t s' hs => ?_,
+          fun t c' hs => sim_intr hs⟩
+  obtain ⟨dP, dC, hinv⟩ := h.qinv q
+  exact op_bounded hinv hs
 
 end composed
 
